@@ -515,9 +515,13 @@ def do_check(pid, tier, replay):
         # 3. driver
         rc_b, out_b = build_driver(prop.DRIVER)
         if rc_b != 0:
-            print("ERROR: harness driver %s does not build against %s:\n%s" % (prop.DRIVER, REPO, out_b[-4000:]))
-            return 2
-        if not judge_ok:
+            # the code the harness is written against has changed shape: the correspondence cannot be run, so
+            # the property is no longer shown to hold
+            res = dict(cases=[], uniq=[], verdict={"bad_agree": [], "bad_spec": [], "nontrivial": 0,
+                                                   "error": "harness driver %s does not build against %s:\n%s" % (
+                                                       prop.DRIVER, REPO, out_b[-3000:])},
+                       summary={}, driver_rc=0, driver_out="")
+        elif not judge_ok:
             res = dict(cases=[], uniq=[], verdict={"bad_agree": [], "bad_spec": [], "nontrivial": 0,
                                                    "error": "judge module does not build:\n" + out_make[-3000:]},
                        summary={}, driver_rc=0, driver_out="")
